@@ -5,7 +5,7 @@ import numpy as np
 from hypothesis import strategies as st
 
 from engine import lib, observe, scen, xforms, zz9enc
-from engine.cmp import close
+from engine.cmp import close, is_root, roots_close
 from engine.observe import Raised
 from engine.oracle import apparent_dims
 from engine.runner import SubCheck
@@ -129,7 +129,7 @@ def compare_parts(p3, p2, rec, tag, skip=(), sigmap=None):
                 rec.violation("%s %s: partition %r, reference analysis %r" % (tag, name, a, b),
                               (sigmap or {}).get(name, "raise-" + name))
             continue
-        ok = _same(kind, a, b)
+        ok = _same(kind, a, b) or (is_root(name) and roots_close(a, b))
         if not ok:
             rec.violation("%s %s differs from the analysis of the restricted survey: %s vs %s"
                           % (tag, name, _fmt(a), _fmt(b)),
